@@ -24,6 +24,7 @@ int sim_tier_scale(void);          /* 1 quick, 2 thorough (SIM_TIER): generators
 /* ---------- plan ---------- */
 #define OP_MAXARGS 8
 #define OP_MAXFAULT 24
+#define FC_NMAX 12
 #define PLAN_MAXOPS 600
 #define PLAN_MAXKNOBS 32
 #define PLAN_MAXSCHED 400
@@ -35,7 +36,7 @@ typedef struct {
     unsigned char *s; size_t slen;      /* first byte-string argument  */
     unsigned char *t; size_t tlen;      /* second byte-string argument */
     int nf; int f[OP_MAXFAULT];         /* fault script attached to this op */
-    int fpos[8];                        /* per call-kind cursor, runtime */
+    int fpos[FC_NMAX];                     /* per call-kind cursor, runtime */
 } op_t;
 typedef struct {
     char prop[8];
@@ -57,7 +58,7 @@ void  plan_print(const plan_t *p, FILE *fp);
 int   plan_parse(plan_t *p, FILE *fp);               /* 0 ok */
 
 /* fault encoding: call kind in bits 24.., outcome in bits 16..23, parameter in low 16 */
-enum { FC_READ = 1, FC_WRITE = 2, FC_ACCEPT = 3, FC_CLOSE = 4, FC_OPEN = 5, FC_CONNECT = 6, FC_SOCKET = 7 };
+enum { FC_READ = 1, FC_WRITE = 2, FC_ACCEPT = 3, FC_CLOSE = 4, FC_OPEN = 5, FC_CONNECT = 6, FC_SOCKET = 7, FC_BIND = 8, FC_LISTEN = 9 };
 enum { FO_FULL = 0, FO_SHORT = 1, FO_EINTR = 2, FO_EAGAIN = 3, FO_EIO = 4, FO_EMFILE = 5, FO_ENOENT = 6,
        FO_ECONNREFUSED = 7, FO_ECONNABORTED = 8, FO_EADDRINUSE = 9, FO_EPIPE = 10, FO_EACCES = 11, FO_NMAX };
 #define FAULT(call, outcome, param) (((call) << 24) | ((outcome) << 16) | ((param) & 0xffff))
@@ -65,7 +66,7 @@ enum { FO_FULL = 0, FO_SHORT = 1, FO_EINTR = 2, FO_EAGAIN = 3, FO_EIO = 4, FO_EM
 #define F_OUT(f)   (((f) >> 16) & 0xff)
 #define F_PARAM(f) ((f) & 0xffff)
 extern const char *fo_names[FO_NMAX];
-extern const char *fc_names[8];
+extern const char *fc_names[FC_NMAX];
 
 /* ---------- run state, trace, verdicts ---------- */
 typedef struct {
